@@ -631,6 +631,15 @@ def rule_dest_sized(db, chk, cfg, rule="DEST.sized", lib_only=True):
                                 ctor = k
                                 break
                         cargs = [a for a in (kids(ctor) if ctor else []) if isinstance(a, dict) and a.get("kind") and a.get("kind") != "CXXDefaultArgExpr"]
+                        # ... or default-constructed and then given its size by X.resize(n) / X.assign(n, v) (the last one before the call)
+                        for y in walk(f.body):
+                            if y is c:
+                                break
+                            if y.get("kind") == "CXXMemberCallExpr" and db.callee(y)[0] in ("resize", "assign"):
+                                mb = db.member_base(y)
+                                mb0 = _u(mb) if mb else {}
+                                if mb0.get("kind") == "DeclRefExpr" and mb0.get("referencedDecl", {}).get("id") in ids and db.call_args(y):
+                                    cargs = [db.call_args(y)[0]]
                         if len(cargs) >= 1:
                             sz = canon(cargs[0])
                             want = "%s.size()" % src
